@@ -1609,6 +1609,16 @@ fn scenario_arbiter(sc: &str) -> Result<Violations, String> {
     chk(&mut v, "C13.redeliver", a_sorted == n_sorted);
     // the arbiter answers each notice echoing its op id and version:  resolve <opp_id> <db> <version> <key> <old> <new>
     let parsed: Vec<(u64, i32, String)> = notices.iter().map(|n| { let f: Vec<&str> = n.split(' ').collect(); (f[1].parse().unwrap(), f[3].parse().unwrap(), f[6..].join(" ")) }).collect();
+    // a write that conflicts while the key is already waiting is chained behind the NEWEST notice of the key's queue: its notice names that notice's key as what it follows (an
+    // arbiter that resolves in order loses none in between)
+    if !away {
+        for i in 1..notices.len() {
+            let f: Vec<&str> = notices[i].split(' ').collect();
+            let want = format!("$conflicts_k_{}", parsed[i - 1].0);
+            if std::env::var("VERIF_TRACE").is_ok() && f.get(5) != Some(&want.as_str()) { eprintln!("notice {} follows {:?}, expected {}", i, f.get(5), want); }
+            chk(&mut v, "C13.queued-conflict-follows-the-newest-notice", f.get(5) == Some(&want.as_str()));
+        }
+    }
     drain(&mut arx);
     for (step, idx) in order.iter().enumerate() {
         if *idx >= parsed.len() { continue; }
